@@ -110,7 +110,7 @@ def consistency_cases(draw, tier):
         else:
             groups[-1].append(e)
     mode = draw(st.sampled_from(["consistent", "consistent", "moved", "tie_across", "random", "other_universe",
-                                 "other_size", "swapped_groups"]))
+                                 "other_size", "swapped_groups", "exchanged", "exchanged"]))
     cons = []
     for g in groups:
         cons.extend(draw(gen.weak_order_of(g)))
@@ -143,6 +143,15 @@ def consistency_cases(draw, tier):
             new = 999 if isinstance(names[0], int) else "zz"
             pos = draw(st.integers(0, len(cons)))
             cons.insert(pos, [new])
+    elif mode == "exchanged" and len(groups) >= 2:
+        # two elements of different groups exchange their places: every bucket keeps its size and the buckets still
+        # line up with the group sizes (half of the time every group is ONE tied bucket), but the relation is broken
+        if draw(st.booleans()):
+            cons = [list(g) for g in groups]
+        i, j = sorted(draw(st.lists(st.integers(0, len(groups) - 1), min_size=2, max_size=2, unique=True)))
+        a = draw(st.sampled_from(groups[i]))
+        b = draw(st.sampled_from(groups[j]))
+        cons = [[b if x == a else a if x == b else x for x in bk] for bk in cons]
     elif mode == "swapped_groups" and len(groups) >= 2:
         i = draw(st.integers(0, len(groups) - 2))
         gg = list(groups)
